@@ -249,20 +249,27 @@ func TestGovcBoundedC03Mirror(t *testing.T) {
 	// after namespace, prefix, type, belongs-to ... have been seen): what a refused text leaves
 	// behind must not make up for what the next one lacks
 	{
-		ms := NewModules()
-		for _, refused := range []string{
+		refusedTexts := []string{
 			"module r1 { namespace \"urn:r1\"; prefix r1; leaf a { type string; } import o { prefix o; } bogus x; }",
+			"module r1 { namespace \"urn:r1\"; prefix r1; leaf a { type string; bogus x; } }",
+			"module r1 { namespace \"urn:r1\"; prefix r1; container c { leaf a { type string { bogus x; } } } }",
+			"module r1 { namespace \"urn:r1\"; prefix r1; container c { container d { leaf a { type string; } bogus x; } } }",
 			"submodule r2 { belongs-to r1 { prefix r1; } leaf b { type string; bogus y; } }",
 			"module r3 { namespace \"urn:r3\"; prefix r3; import o { prefix o; bogus z; } }",
-		} {
-			if err := ms.Parse(refused, "refused.yang"); err == nil {
-				fmt.Printf("GOVC-FAIL name=c03-rejection accepted: %s\n", refused)
-			}
 		}
-		for _, f := range faults {
-			evals++
-			if err := ms.Parse(f.text, "fault.yang"); err == nil {
-				fmt.Printf("GOVC-FAIL name=c03-rejection %s, accepted by a set that refused other texts before: %s\n", f.what, f.text)
+		for ri, refused := range refusedTexts {
+			for _, f := range faults {
+				evals++
+				ms := NewModules()
+				if err := ms.Parse(refused, "refused.yang"); err == nil {
+					fmt.Printf("GOVC-FAIL name=c03-rejection accepted: %s\n", refused)
+				}
+				if ri%2 == 1 {
+					ms.Parse(refusedTexts[(ri+1)%len(refusedTexts)], "refused2.yang")
+				}
+				if err := ms.Parse(f.text, "fault.yang"); err == nil {
+					fmt.Printf("GOVC-FAIL name=c03-rejection %s, accepted by a set that refused %q before: %s\n", f.what, refused, f.text)
+				}
 			}
 		}
 	}
